@@ -86,8 +86,8 @@ impl Check for C16 {
     }
     fn budget(&self, tier: Tier) -> Budget {
         match tier {
-            Tier::Quick => Budget { wall_secs: 30, max_cases: 30_000, checkpoint_every: 256, workers: 16 },
-            Tier::Thorough => Budget { wall_secs: 300, max_cases: 3_000_000, checkpoint_every: 256, workers: 16 },
+            Tier::Quick => Budget { wall_secs: 40, max_cases: 300_000, checkpoint_every: 256, workers: 16 },
+            Tier::Thorough => Budget { wall_secs: 600, max_cases: 20_000_000, checkpoint_every: 256, workers: 16 },
         }
     }
     fn generate(&self, seed: u64, idx: u64, _tier: Tier) -> Value {
